@@ -21,6 +21,8 @@ Inductive gev :=
 | GSpawn (f : string)                (* go closure f *)
 | GWait                              (* wg.Wait() *)
 | GCreate (excl : bool)              (* os.OpenFile(.. O_CREATE [|O_EXCL]) *)
+| GRmw (v : string) (atomic : bool)  (* a write of guarded v whose value derives from a read of v;
+                                        atomic = read and write lie in ONE acquire..release region *)
 | GBad (why : string).               (* a shape the translator cannot linearise soundly *)
 
 Inductive ev :=
@@ -78,6 +80,8 @@ Fixpoint expand (fuel : nat) (funcs : list (string * list gev)) (l : list gev) :
         | GWait => [Nop "wait"]
         | GCreate true => [Nop "create-excl"]
         | GCreate false => [Nop "create-nonexcl"]
+        | GRmw v true => [Nop ("rmw-atomic " ++ v)]
+        | GRmw v false => [Nop ("rmw-split " ++ v)]
         | GBad _ => [Fail]
         end) l
   end.
